@@ -1,7 +1,8 @@
-\* thorough: every site with <= 2 lines, one in Sample3 of the three-line sites
+\* thorough: every site with <= 3 lines
 CONSTANT MaxLines = 3
 CONSTANT Sample2 = 1
-CONSTANT Sample3 = 3
+CONSTANT Sample3 = 1
+CONSTANT Extend3 = 1
 SPECIFICATION Spec
 INVARIANT TypeOK
 INVARIANT SetupRejectsDuplicatesAndBadArity
